@@ -89,9 +89,9 @@ PROPS = {
         "rule": "packets of 0..2000 bytes and the limits x device response scripts (USART would-block bursts; CAN would-block and displaced-frame reports; serial port short writes of 1..6 bytes, all-one-byte writes, zero writes, interrupted, I/O errors, flush failure); distinct by input text; non-trivial = multi-frame packet or a non-empty response script",
         "explanation": "theorems usartSend_exact, canSend_exact, serialSend_exact, writeAll_spec + real try_send_packet against scripted devices; device log (digest), flush count and result compared; a differing line is a concrete C14 violation (model = wire image)",
     },
-    "C15": {"groups": {"proto_enum": Q(55987, 55987), "proto_send_enum": Q(74898, 74898), "proto": Q(160000, 1500000)}, "rule": None, "explanation": "theorems dispatch_spec, tick_spec (+ reach_sorted for the handler table) + the real Protocol over a scripted Interface"},
-    "C16": {"groups": {"proto_send_enum": Q(74898, 74898), "proto": Q(160000, 1500000), "psend_usart": Q(20000, 200000), "psend_can": Q(20000, 200000), "psend_serial": Q(20000, 200000)}, "rule": None, "explanation": "theorem sendPacket_spec + the real Protocol over a scripted Interface"},
-    "C17": {"groups": {"proto_enum": Q(55987, 55987), "proto": Q(160000, 1500000)}, "rule": None, "explanation": "theorems nextId_fresh, add_spec, remove_spec, reach_sorted, removed_never_called + the real Protocol over a scripted Interface"},
+    "C15": {"groups": {"proto_enum": Q(55987, 55987), "proto_send_enum": Q(74898, 74898), "proto": Q(160000, 1500000)}, "rule": None, "explanation": "theorems dispatch_spec, tick_spec (+ reach_sorted for the handler table), and tick_spec proved about Protocol::tick as translated from src/protocol.rs on every run (C15_src_tick_*) + the real Protocol over a scripted Interface"},
+    "C16": {"groups": {"proto_send_enum": Q(74898, 74898), "proto": Q(160000, 1500000), "psend_usart": Q(20000, 200000), "psend_can": Q(20000, 200000), "psend_serial": Q(20000, 200000)}, "rule": None, "explanation": "theorems sendPacket_spec, nested_send_spec (re-entrant sends from callbacks), send_result, and the routing specification proved about Protocol::send_packet as translated from src/protocol.rs on every run (C16_src_sendPacket_*) + the real Protocol over a scripted Interface"},
+    "C17": {"groups": {"proto_enum": Q(55987, 55987), "proto": Q(160000, 1500000)}, "rule": None, "explanation": "theorems nextId_fresh, add_spec, remove_spec, reach_sorted, removed_never_called(_nested), and nextId_fresh / remove_spec proved about get_next_handler_id / remove_packet_handler as translated from src/protocol.rs on every run (C17_src_*) + the real Protocol over a scripted Interface"},
     "C18": {"groups": {"proto": Q(160000, 1500000)}, "rule": None, "explanation": "theorems exchangeLoop_first/timeout/error, exchangeAllLoop_spec, exchange_prefix + the real exchange_packet / exchange_packets instantiated for all 16 event types"},
     "C19": {
         "groups": {"rxh_usart": Q(60000, 400000), "rxh_serial": Q(60000, 400000), "rxh_can": Q(60000, 400000)},
